@@ -406,6 +406,7 @@ func c09One(sc *C09Sc, events []C09Ev, env *Env) *Violation {
 	var specPorts []world.Acc
 	var nIn uint64
 	var elemsAcc []c09Elem
+	var elemF []uint8
 	out := model.BlockSpec(model.BlockIn{
 		Op: sc.Op, PC: pc, A: uint8(regs.AF >> 8), F: uint8(regs.AF), BC: regs.BC, DE: regs.DE, HL: regs.HL, Mem: &specMem,
 		PortIn: func(p uint8) uint8 {
@@ -417,7 +418,8 @@ func c09One(sc *C09Sc, events []C09Ev, env *Env) *Violation {
 		PortOut: func(p uint8, v uint8) {
 			specPorts = append(specPorts, world.Acc{Kind: world.PO, Addr: uint16(p), Val: v})
 		},
-		OnElem: func(i int, r, w int32) { elemsAcc = append(elemsAcc, c09Elem{r, w}) },
+		OnElem:    func(i int, r, w int32) { elemsAcc = append(elemsAcc, c09Elem{r, w}) },
+		AfterElem: func(i int, f uint8) { elemF = append(elemF, f) },
 	})
 
 	name := fmt.Sprintf("ED %02X at %04x BC=%04x DE=%04x HL=%04x A=%02x", sc.Op, pc, regs.BC, regs.DE, regs.HL, regs.AF>>8)
@@ -521,6 +523,13 @@ func c09One(sc *C09Sc, events []C09Ev, env *Env) *Violation {
 			}
 			if !ok {
 				return viol("one-element-per-step", "%s: Step for element %d made accesses %s; one element is %s (values aside)", name, elems, world.FmtLog(got), world.FmtLog(want))
+			}
+		}
+		// ... and each element is the non-repeating instruction: its documented flags hold after every Step,
+		// not only at the end
+		if elems < len(elemF) {
+			if g := m.CPU.AF.Lo; g&out.FMask != elemF[elems]&out.FMask {
+				return viol("element-flags", "%s: after the Step for element %d the documented flags (mask %02x) are %02x, one element leaves %02x", name, elems, out.FMask, g&out.FMask, elemF[elems]&out.FMask)
 			}
 		}
 		elems++
